@@ -78,6 +78,12 @@ theorem action_frame (g : Grace) (now : Nat) (k a a' : String) (gr : Int) (md er
         · simp [h1, h2, h3, h4, hobs]
         · simp [h1, h2, h3, h4]
 
+/-- a failed closure is reported as retry-with-error and leaves the map untouched -/
+theorem closure_error_reported (g : Grace) (now : Nat) (k a : String) (gr : Int) (md : Bool) :
+    runWithGraceSeconds g now k a gr md true = (g, ⟨true, 0, true⟩) ∧
+    errorReported true (runWithGraceSeconds g now k a gr md true).2.retry (runWithGraceSeconds g now k a gr md true).2.err = true := by
+  simp [runWithGraceSeconds, errorReported]
+
 /-- **frame, resource expectations** (incl. the two BatchRelease call sites) -/
 theorem exp_frame (now : Nat) (st : ExpStore) (o : EOp) (k' : String) (h : k' ∉ o.keys) :
     aget (ExpStore.apply now st o).1 k' = aget st k' :=
@@ -354,6 +360,23 @@ theorem keys_injective (x y : MCall) (kx ky : String × String)
     unfold keyIdent
     cases hsx : x.site <;> cases hsy : y.site <;> simp_all
 
+/-- **frame at (key, action) level for Manager calls**: a call changes no record whose action is not its own -/
+theorem manager_action_frame (g : Grace) (now : Nat) (x : MCall) (k' a' : String) (h : a' ≠ x.site.action) :
+    lookup2 (managerCall g now x).1 k' a' = lookup2 g k' a' := by
+  cases hk : x.graceKey with
+  | none => rw [managerCall_none g now x hk]
+  | some ka =>
+    obtain ⟨k, a⟩ := ka
+    have ha := (graceKey_spec x k a hk).1
+    rw [managerCall_some g now x k a hk]
+    by_cases hkk : k' = k
+    · subst hkk
+      exact action_frame g now k' a a' _ _ _ (ha ▸ h)
+    · have := (runWithGraceSeconds_out (fun z => z == k') g now k a (getGraceSeconds x.c.refs x.defaultGrace) x.cl.modified x.cl.err
+        (by simpa using fun e => hkk e.symm))
+      unfold lookup2
+      rw [aget_eq_of_restrict_eq _ _ k' this]
+
 /-- the keys of a call made for rollout `a` are among `a.keys` -/
 theorem keys_of_call (a : RIdent) (x : MCall) (h : callOf a x = true) :
     ∀ k ∈ (x.graceKey.map (·.1)).toList, k ∈ a.keys := by
@@ -575,6 +598,40 @@ theorem br_isolated (rels : List (Nat × String × String)) (r : Nat) (ns n : St
         · exact d this.1.symm
         · exact d this.2.symm
 
+/-- **the expectation guards creation**: `realCanaryController.Create` reports `created` only if the release had no
+    unobserved creation pending, or the pending one has been unsatisfied for at least the timeout -/
+theorem create_respects_expectation (st : ExpStore) (now t : Nat) (ns n : String) (known sf ok : Bool) (uid : String) :
+    createAllowed (pendingOf st (nsName ns n)) (unsatAgeOf st now (nsName ns n)) t
+      (brCreate st now t ns n known sf ok uid).2 = true := by
+  unfold createAllowed brCreate pendingOf unsatAgeOf ExpStore.satisfied brCreateCont
+  cases known with
+  | true => simp
+  | false =>
+    cases hg : aget st (nsName ns n) with
+    | none => simp [hg]
+    | some e =>
+      simp only [hg, Bool.false_eq_true, if_false]
+      cases hf : e.objs.filter (fun x => x.2.length > 0) with
+      | nil =>
+        have : e.objs.any (fun x => x.2.length > 0) = false := by
+          rw [List.any_eq_false]
+          intro x hx hlen
+          have : x ∈ e.objs.filter (fun x => x.2.length > 0) := List.mem_filter.mpr ⟨hx, hlen⟩
+          rw [hf] at this; cases this
+        simp [this]
+      | cons x more =>
+        cases hu : e.firstUnsat with
+        | none =>
+          by_cases ht : now - now ≥ t
+          · have : t = 0 := by omega
+            simp [this]
+          · have ht0 : ¬ t = 0 := by omega
+            cases sf <;> cases ok <;> simp [ht0]
+        | some fu =>
+          by_cases ht : now - fu ≥ t
+          · simp [ht]
+          · cases sf <;> cases ok <;> simp [ht]
+
 /-! ### API objects -/
 
 /-- rollouts in different namespaces never touch a common network object -/
@@ -582,11 +639,31 @@ theorem footprint_disjoint_of_ns (ns₁ svc₁ ing₁ : String) (o₁ d₁ : Boo
     (h : ns₁ ≠ ns₂) : noNameClash ns₁ svc₁ ing₁ o₁ d₁ ns₂ svc₂ ing₂ o₂ d₂ = true := by
   simp [noNameClash, disjointKeys, footprint, h]
 
-/-- … but in one namespace the derived names can run into another rollout's objects: the canary Service of a
-    rollout on Service `web` is the stable Service of a rollout on Service `web-canary` (a *test* on literals;
-    known finding `canaryNameClash`) -/
+/-- FULL-STRENGTH STATEMENT (false for the unchanged code, known finding F-C19-1, guard `canaryNameClash`):
+      rollouts in one namespace on different Services and different Ingresses never touch a common object.
+    The canary Service of a rollout on Service `web` is the stable Service of a rollout on Service `web-canary`,
+    and the Manager re-selects / deletes it by name without checking who created it. -/
+theorem footprint_disjoint_full_FALSE :
+    ¬ (∀ ns svc₁ ing₁ svc₂ ing₂ : String, svc₁ ≠ svc₂ → ing₁ ≠ ing₂ →
+        noNameClash ns svc₁ ing₁ false false ns svc₂ ing₂ false false = true) := by
+  intro h
+  have := h "ns" "web" "web" "web-canary" "other" (by decide) (by decide)
+  revert this
+  decide
+
+/-- the same witness as a *test* on literals -/
 theorem canary_name_clash_witness :
     noNameClash "ns" "web" "web" false false "ns" "web-canary" "other" false false = false := by decide
+
+/-- **partial (outside the guard)**: in one namespace, if neither rollout's Service / Ingress name is the other's
+    name or the other's derived `-canary` name, the two rollouts touch no common object -/
+theorem footprint_disjoint_partial (ns svc₁ ing₁ svc₂ ing₂ : String)
+    (hs : svc₁ ≠ svc₂) (hs1 : svc₁ ++ "-canary" ≠ svc₂) (hs2 : svc₂ ++ "-canary" ≠ svc₁)
+    (hi : ing₁ ≠ ing₂) (hi1 : ing₁ ++ "-canary" ≠ ing₂) (hi2 : ing₂ ++ "-canary" ≠ ing₁) :
+    noNameClash ns svc₁ ing₁ false false ns svc₂ ing₂ false false = true := by
+  have c1 : svc₁ ++ "-canary" ≠ svc₂ ++ "-canary" := fun e => hs (canaryName_injective _ _ e)
+  have c2 : ing₁ ++ "-canary" ≠ ing₂ ++ "-canary" := fun e => hi (canaryName_injective _ _ e)
+  simp [noNameClash, disjointKeys, footprint, getCanaryServiceName, hs, hs1, Ne.symm hs2, hi, hi1, Ne.symm hi2, c1, c2]
 
 /-! ### the dynamic watch registry -/
 
@@ -755,6 +832,8 @@ example : brTraceOf exRels exBrTrace = true := by decide
 example : obsOf 1 (ExpStore.run (0, []) exBrTrace).2 = [.created .created, .created .blocked, .created .created] := by decide
 example : obsOf 2 (ExpStore.run (0, []) exBrTrace).2 = [.created .created, .unit, .created .created] := by decide
 example : noNameClash "prod" "web" "web" false false "stage" "web" "web" false false = true := by decide
+/-- the hypotheses of `footprint_disjoint_partial` are satisfiable -/
+example : ("web" : String) ≠ "api" ∧ ("web" : String) ++ "-canary" ≠ "api" ∧ ("api" : String) ++ "-canary" ≠ "web" := by decide
 example : staticKinds.contains "apps/v1, Kind=Deployment" = true := by decide
 example : reconcileWatch staticKinds "example.com/v1, Kind=Foo" true = (staticKinds ++ ["example.com/v1, Kind=Foo"], true, true) := by decide
 /-- interleaving hypotheses are satisfiable -/
